@@ -31,6 +31,11 @@ def run(R, ctx):
     global_gate(R, ctx)
     enabled_vs_log(R, ctx)
     fields(R, ctx)
+    # the specification and log's global max level change together: a record the active specification enables is not dropped by the
+    # facade because a concurrent change left the gate of another specification behind (shared with C12 R12.1-R12.4)
+    R.rule('R02.7', 'specification and gate are updated together under the specification write lock (shared with R12.1-R12.4)')
+    import c12
+    c12.run(Relabel(R, {'R12.1': 'R02.7', 'R12.2': 'R02.7', 'R12.3': 'R02.7', 'R12.4': 'R02.7', 'R12.5': 'R02.6'}), ctx)
 
 
 # ------------------------------------------------------------------------------------------------ R02.1
@@ -369,8 +374,8 @@ def global_gate(R, ctx):
             okc = any(r_[0] in ('call', 'via') and r_[1] == fold.path for r_ in roots)
             R.check('R02.4', f"{root_fn(x.path)}|uses-fold", okc, "the level set derives from the fold over the writers",
                     f"{x.path} sets the global level without the writers' levels ({sorted(map(str, roots))[:3]})", where=x.loc(bb))
-    if ngate < 2:
-        raise CheckError(f"only {ngate} call sites of log::set_max_level found")
+    if ngate < 1:
+        raise CheckError(f"no call site of log::set_max_level found")
     mb = ctx.body(r'^log_specification::LogSpecification::max_level$')
     ok, why, n = max_over_all(ctx, mb, ['self'], [],
                               base=lambda x: x == ('agg', 'log::LevelFilter', 'Off', ()),
